@@ -96,17 +96,37 @@ class FabricRun(object):
   def check_registry(self, after_op):
     """structural invariant of the subscription registry (identity based)"""
     f = self.fabric
-    for kind, reg in (('fifo', f.fifo_subscriptions), ('lifo', f.lifo_subscriptions)):
+
+    def members(entry):
+      # the registry keeps, per signal, the subscribed queues: as a list today; a mapping whose values are the queues
+      # would do as well.  Anything else is not looked into (the deliveries are what the property is about)
+      if isinstance(entry, dict):
+        entry = list(entry.values())
+      if isinstance(entry, (list, tuple, set, frozenset)) or hasattr(entry, 'snapshot'):
+        lst = list(entry.snapshot()) if hasattr(entry, 'snapshot') else list(entry)
+        if all(any(q is o for o in self.queues) for q in lst):
+          return lst
+      return None
+    for kind, reg in (('fifo', getattr(f, 'fifo_subscriptions', None)), ('lifo', getattr(f, 'lifo_subscriptions', None))):
+      if not isinstance(reg, dict):
+        continue
       for sig in sorted(reg.keys()):
-        ids = [id(q) for q in reg[sig]]
+        lst = members(reg[sig])
+        if lst is None:
+          continue
+        ids = [id(q) for q in lst]
         if len(set(ids)) != len(ids):
-          self.registry_problems.append(('duplicate', kind, sig, after_op, [self._qname(q) for q in reg[sig]]))
+          self.registry_problems.append(('duplicate', kind, sig, after_op, [self._qname(q) for q in lst]))
     # nobody may lose a subscription it held
     for s in self.subs:
       if s['end'] is None or s.get('cleared'):
         continue
-      reg = f.fifo_subscriptions if s['kind'] == 'fifo' else f.lifo_subscriptions
-      lst = reg.get(s['sig'], [])
+      reg = getattr(f, 'fifo_subscriptions' if s['kind'] == 'fifo' else 'lifo_subscriptions', None)
+      if not isinstance(reg, dict):
+        continue
+      lst = members(reg.get(s['sig'], []))
+      if lst is None:
+        continue
       if not any(q is self.queues[s['q']] for q in lst):
         self.registry_problems.append(('lost', s['kind'], s['sig'], after_op, 'queue %d no longer registered; registry holds %s' % (s['q'], [self._qname(q) for q in lst])))
 
